@@ -352,6 +352,9 @@ func ExecRun(t *testing.T, prop string, st Stratum, stIdx int, tape *simrt.Tape,
 				for k := range HookBegin {
 					delete(HookBegin, k)
 				}
+				for k := range StoppedLabels {
+					delete(StoppedLabels, k)
+				}
 				mrand.Seed(int64(tape.Intn(1 << 30))) // jpillora/backoff jitter uses the global source
 				st.Fn(r)
 			})
@@ -467,7 +470,31 @@ func ExecRun(t *testing.T, prop string, st Stratum, stIdx int, tape *simrt.Tape,
 // stuckRoot finds the root of the wait-for chain of a blocked task: lock holders, and - when the task waits for a
 // channel's state machine (SendSync) - the state-machine stage that is itself stuck behind a lock. It returns a
 // signature part naming the root ("" if the task itself is the root) and the root's stack for the report.
+// StoppedLabels: node labels on which Manager.Stop has been called in this run (reset per run).
+var StoppedLabels = map[string]bool{}
+
+const afterStopSig = "waits-for-the-state-machines-that-Manager.Stop-had-already-stopped"
+
+// waitsForStateMachine reports whether a stack is parked inside go-statemachine (event queue, synchronous query or the
+// planner's notification hand-over).
+func waitsForStateMachine(stk string) bool {
+	return strings.Contains(stk, "go-statemachine.(*StateMachine).send") || strings.Contains(stk, "go-statemachine/fsm.(*stateGroup).SendSync") || strings.Contains(stk, "go-statemachine/fsm.fsmHandler.Plan")
+}
+
+// stuckRoot names the root cause of a blocked task (see stuckRootRaw). One mechanism gets a single name whatever
+// callback it is seen through: after Manager.Stop has stopped the channels' state machines (it does that before it
+// shuts the transport down) anything that still calls into them parks for ever, with the locks it holds.
 func stuckRoot(s *simrt.Sim, t *simrt.Task, stk string) (string, string) {
+	why, rootStk := stuckRootRaw(s, t, stk)
+	if StoppedLabels[t.Label] {
+		if (why == "" && waitsForStateMachine(stk)) || (rootStk != "" && waitsForStateMachine(rootStk)) {
+			return afterStopSig, rootStk
+		}
+	}
+	return why, rootStk
+}
+
+func stuckRootRaw(s *simrt.Sim, t *simrt.Task, stk string) (string, string) {
 	rootOf := func(t0 *simrt.Task) (*simrt.Task, bool) {
 		seen := map[*simrt.Task]bool{t0: true}
 		hs := simrt.HoldersOf(t0)
@@ -509,6 +536,30 @@ func stuckRoot(s *simrt.Sim, t *simrt.Task, stk string) (string, string) {
 			if rt, cyc := rootOf(bt); rt != nil {
 				root, cycle = rt, cyc
 				break
+			}
+		}
+	}
+	if root == nil && strings.Contains(stk, "errgroup.(*Group).Wait") {
+		// the task waits for goroutines it spawned (Transport.Shutdown): follow a child that is stuck behind a lock
+		for _, bt := range s.BlockedTasks() {
+			if bt.WaitsOn != nil && strings.HasPrefix(bt.ID, t.ID+".") {
+				// walk the holders; if the chain comes back to t (which holds a lock while it waits for its children) it is a cycle
+				prev, seen := bt, map[*simrt.Task]bool{bt: true}
+				for hs := simrt.HoldersOf(bt); len(hs) > 0; hs = simrt.HoldersOf(prev) {
+					if hs[0] == t {
+						pst := s.StacksOf([]*simrt.Task{prev})[prev.ID]
+						return "lock-cycle-through:" + rootFrame(pst), "\n--- " + prev.ID + " holds the lock a spawned goroutine of this call needs and waits for a lock this call holds:\n" + shortStack(pst)
+					}
+					if seen[hs[0]] {
+						break
+					}
+					prev = hs[0]
+					seen[prev] = true
+				}
+				if rt, cyc := rootOf(bt); rt != nil {
+					root, cycle = rt, cyc
+					break
+				}
 			}
 		}
 	}
